@@ -33,6 +33,10 @@ var (
 	intPool  = []rng{{MinI, MaxI}, {0, MaxI}, {0, 0}, {1, 1}, {MinI, 0}, {2, 5}, {-5, 5}, {-3, -1}, {MaxI, MaxI}, {MinI, MinI}, {0, 255}, {1, 2}, {0, 5}, {1, MaxI}, {MinI, -1}}
 	fltPool  = []float64{-math.MaxFloat64, -2.5, -1, -0.5, 0, 0.5, 1, 1.5, 3, 1024, math.MaxFloat64}
 	tsPool   = []int64{MinI, -5, 0, 1, 5, 1000000000, 3600000000000, MaxI}
+	// instants as (seconds since year 1, nanoseconds), ascending; all inside the years 0001..9999 (the default Timestamp starts at year
+	// 1 and the default text format has four year digits); the last one is 9999-12-31T23:59:59.999999999Z
+	tsvPool = [][2]int64{{0, 0}, {0, 1}, {1, 0}, {TsEpoch, 0}, {TsEpoch + 1546300800, 123456789}, {TsEpoch + 1546300800, 123456790},
+		{TsEpoch + 4102444800, 0}, {315537897599, 999999999}}
 	intVals  = []int64{0, 1, 2, 3, 5, 6, -1, -3, -5, 255, 256, MaxI, MinI, MaxI - 1, MinI + 1, 42}
 	fltVals  = []float64{0, math.Copysign(0, -1), 0.5, 1, 1.5, 2.5, 3, -1, -2.5, 1024, math.MaxFloat64, -math.MaxFloat64, math.Inf(1), math.Inf(-1), 1e-300}
 )
@@ -91,6 +95,9 @@ func (g *Gen) Leaf() Ty {
 	case 10:
 		return Bool(g.n(3) - 1)
 	case 11:
+		if g.p(35) {
+			return g.tstamp()
+		}
 		i := g.n(len(tsPool))
 		j := i + g.n(len(tsPool)-i)
 		return Tspan(tsPool[i], tsPool[j])
@@ -136,6 +143,21 @@ func (g *Gen) Leaf() Ty {
 		return Var()
 	}
 }
+
+// tstamp: a Timestamp type over the instant pool; now and then the default, or open above
+func (g *Gen) tstamp() Ty {
+	i := g.n(len(tsvPool))
+	j := i + g.n(len(tsvPool)-i)
+	switch g.n(6) {
+	case 0:
+		return TstampAll()
+	case 1:
+		return Tstamp(tsvPool[i][0], tsvPool[i][1], TsMaxSec, TsMaxNs)
+	}
+	return Tstamp(tsvPool[i][0], tsvPool[i][1], tsvPool[j][0], tsvPool[j][1])
+}
+
+func (g *Gen) tsv() Val { z := tsvPool[g.n(len(tsvPool))]; return VTsv(z[0], z[1]) }
 
 func (g *Gen) obj() Ty {
 	all := [][]int64{{}, {1}, {1, 1}, {1, 1, 1}, {1, 2}, {2}}
@@ -404,6 +426,9 @@ func (g *Gen) scalarVal() Val {
 	case 9:
 		return VBin(g.pickS([]string{"", "\x00\xff", "abc"}))
 	case 10:
+		if g.p(40) {
+			return g.tsv()
+		}
 		return VTs(g.pickI(tsPool))
 	}
 	return g.objVal()
@@ -636,6 +661,14 @@ func (g *Gen) witness(t Ty, fuel int) (Val, bool) {
 			return VTs(t.Lo), true
 		}
 		return VTs(t.Hi), true
+	case "tstamp":
+		if t.Lo > t.Hi || t.Lo == t.Hi && t.NLo > t.NHi {
+			return Val{}, false
+		}
+		if g.p(50) || t.Hi > 315537897599 { // the upper bound of the default lies beyond the years the text format can print
+			return VTsv(t.Lo, t.NLo), true
+		}
+		return VTsv(t.Hi, t.NHi), true
 	case "strsz":
 		n, ok := g.count(t.Lo, t.Hi)
 		if !ok {
@@ -918,6 +951,20 @@ func (g *Gen) MutateVal(v Val) Val {
 		return g.pickV([]Val{VRx(v.S + "b"), VRx(""), VS(v.S), VUndef})
 	case "binv":
 		return g.pickV([]Val{VBin(v.S + "\x01"), VS(strings.ToValidUTF8(v.S, "?")), VUndef, VA(VI(1))})
+	case "tsv":
+		switch g.n(4) {
+		case 0:
+			if v.I2 < TsMaxNs {
+				return VTsv(v.I, v.I2+1)
+			}
+		case 1:
+			if v.I2 > 0 {
+				return VTsv(v.I, v.I2-1)
+			}
+		case 2:
+			return g.tsv()
+		}
+		return g.pickV([]Val{VTs(v.I2), VI(v.I), VUndef})
 	case "ts":
 		switch g.n(4) {
 		case 0:
